@@ -125,12 +125,19 @@ func straceArgs(f *Fault, traceFile, src, dst string) []string {
 		}
 		inj = append(inj, "inject="+e)
 	}
+	if f.enumerate {
+		for _, s := range sweepSyscalls {
+			add(s)
+		}
+	}
 	args := []string{"-f", "-qq", "-o", traceFile, "-e", "trace=" + strings.Join(order, ",")}
 	switch f.PathOnly {
 	case "src":
 		args = append(args, "-P", src)
 	case "dst":
 		args = append(args, "-P", dst)
+	case "both":
+		args = append(args, "-P", src, "-P", dst)
 	}
 	for _, e := range inj {
 		args = append(args, "-e", e)
@@ -138,7 +145,17 @@ func straceArgs(f *Fault, traceFile, src, dst string) []string {
 	return args
 }
 
+// sweepSyscalls: every syscall an implementation of copy / move can reasonably issue on the two
+// paths. close is left out on purpose (a tampered close is skipped, not failed, and the statement
+// does not cover write-back errors).
+var sweepSyscalls = []string{"openat", "open", "creat", "newfstatat", "fstat", "lstat", "stat", "statx",
+	"copy_file_range", "sendfile", "splice", "read", "write", "pread64", "pwrite64", "readv", "writev", "lseek",
+	"ftruncate", "truncate", "fallocate", "fsync", "fdatasync", "rename", "renameat", "renameat2",
+	"unlink", "unlinkat", "link", "linkat", "symlink", "symlinkat", "readlink", "readlinkat",
+	"fchmod", "fchmodat", "chmod", "fchown", "fchownat", "utimensat", "mkdir", "mkdirat", "getdents64", "ioctl"}
+
 type probeRun struct {
+	seq        []string // enumerate: names of the traced syscalls in order
 	res        ProbeResult
 	hits       []string // names of the syscalls that were tampered with, in order
 	renameHits int      // rename* calls answered with the forced error
@@ -213,6 +230,9 @@ func runProbe(op, src, dst string, f *Fault, scratch string) probeRun {
 	if traceFile != "" {
 		if b, err := os.ReadFile(traceFile); err == nil {
 			for _, ln := range strings.Split(string(b), "\n") {
+				if f.enumerate && strings.TrimSpace(ln) != "" && !strings.Contains(ln, " resumed>") && !strings.Contains(ln, "+++ ") && !strings.Contains(ln, "--- ") {
+					pr.seq = append(pr.seq, syscallName(ln))
+				}
 				if !strings.Contains(ln, "(INJECTED)") {
 					continue
 				}
